@@ -45,10 +45,11 @@ Fixpoint check_params (declared : list key) (kw : params) : option key :=
 Inductive entry :=
 | EStr                (* model_from_str(text, **kw) *)
 | EStrFn (f : nat)    (* model_from_str(text, file_name, **kw) *)
-| EFile (f : nat).    (* model_from_file(file_name, **kw) *)
+| EFile (f : nat)     (* model_from_file(file_name, **kw) *)
+| ERepo.              (* GlobalRepo.load_models_in_model_repo with **kw: every registered pattern, no validation *)
 
 Definition sig_of (e : entry) : list key :=
-  match e with EFile _ => sig_from_file | _ => sig_from_str end.
+  match e with EFile _ => sig_from_file | ERepo => sig_repo | _ => sig_from_str end.
 
 (* the arguments the call supplies itself (self, model_str / file_name) *)
 Definition pos_bound (e : entry) : list key :=
@@ -56,6 +57,7 @@ Definition pos_bound (e : entry) : list key :=
   | EStr => firstn 2 sig_from_str
   | EStrFn _ => firstn 3 sig_from_str
   | EFile _ => firstn 2 sig_from_file
+  | ERepo => firstn 1 sig_repo
   end.
 
 (* Python argument binding: a keyword naming an argument that is already supplied is a TypeError
@@ -131,6 +133,7 @@ Inductive err :=
 | ENoFile     (* TypeError: dirname(None) — ImportURI import in a model without file name *)
 | ENoParams   (* AttributeError: the importing model has no _tx_model_params *)
 | ENoMM       (* AttributeError: no language registered for the file and no default metamodel *)
+| ENotApplicable (* the provider has no load_models_in_model_repo *)
 | EFuel.      (* model artefact; excluded by C27_fuel_sufficient *)
 
 Inductive res := Ok (s : lstate) | Fail (e : err).
@@ -154,12 +157,12 @@ Section Loops.
       match nth_error w f with
       | None => Fail EMissing
       | Some fr =>
-        match mm_for dflt fr with
-        | None => Fail ENoMM
-        | Some mm =>
-          match repo_find f (allm s) with
-          | Some _ => load_files (Some mm) fs' s                       (* locally / globally cached *)
-          | None =>
+        match repo_find f (allm s) with
+        | Some _ => load_files (mm_for dflt fr) fs' s                  (* locally / globally cached *)
+        | None =>
+          match mm_for dflt fr with
+          | None => Fail ENoMM                                         (* None.internal_model_from_file *)
+          | Some mm =>
             match rec mm f fr s with
             | Ok s' => load_files (Some mm) fs' s'
             | Fail e => Fail e
@@ -185,6 +188,22 @@ Section Loops.
           | Ok s' => load_imps prov mm fn id p l' s'
           | Fail e => Fail e
           end
+        end
+      end
+    end.
+
+  (* load_models_in_model_repo: one load_models_using_filepattern(pattern, model=None) per registered
+     pattern: the pattern as it is (no project_root), no default metamodel, no importing model *)
+  Fixpoint load_pats (l : list import) (s : lstate) : res :=
+    match l with
+    | [] => Ok s
+    | i :: l' =>
+      match i_plain i with
+      | None => Fail EMissing
+      | Some fs =>
+        match load_files None fs s with
+        | Ok s' => load_pats l' s'
+        | Fail e => Fail e
         end
       end
     end.
@@ -239,11 +258,12 @@ Inductive outcome :=
 | ORejected (k : key)        (* TextXError unknown parameter k *)
 | ONotStr                    (* TextXError textX accepts only strings *)
 | OErr (e : err)
-| OLoaded (result : nat) (first_new : nat) (repo : option (list (nat * nat))).
+| OLoaded (result : nat) (first_new : nat) (repo : option (list (nat * nat)))
+| ORepo (first_new : nat) (repo : list (nat * nat)).   (* load_models_in_model_repo returns the repository *)
 
 Definition fuel_for (w : list file) : nat := S (S (length w)).
 
-Definition is_str_entry (e : entry) : bool := match e with EFile _ => false | _ => true end.
+Definition is_str_entry (e : entry) : bool := match e with EFile _ | ERepo => false | _ => true end.
 
 Definition finish_load (c : cfg) (g : gstate) (e : entry) (prim : bool) (r : res) : gstate * outcome :=
   match r with
@@ -260,7 +280,7 @@ Definition run_op (w : list file) (c : cfg) (declared : list key) (opn : nat) (g
   match bind_kwargs (o_entry o) (o_kw o) with
   | None => (g, OTypeError)
   | Some kw =>
-    match check_params declared kw with
+    match (match o_entry o with ERepo => None | _ => check_params declared kw end) with
     | Some k => (g, ORejected k)
     | None =>
       if is_str_entry (o_entry o) && negb (o_is_str o) then (g, ONotStr) else
@@ -286,6 +306,16 @@ Definition run_op (w : list file) (c : cfg) (declared : list key) (opn : nat) (g
             finish_load c g (EFile f) (f_prim fr)
                         (load_new (fuel_for w) w (c_prov c) opn 0 (Some f) fr kw (c_grepo c) s0)
           end
+        end
+      | ERepo =>
+        match c_prov c with
+        | PGlobalRepo =>
+          match load_pats (fun mm f fr s' => load_new (S (length w)) w (c_prov c) opn mm (Some f) fr kw true s') w
+                          (f_imports (o_content o)) {| heap := g_heap g; allm := [] |} with
+          | Ok s' => ({| g_heap := heap s'; g_repo := g_repo g |}, ORepo (length (g_heap g)) (allm s'))
+          | Fail x => (g, OErr x)
+          end
+        | _ => (g, OErr ENotApplicable)
         end
       end
     end
@@ -318,7 +348,7 @@ Definition show_model (h : list mrec) (id : nat) : string :=
   end.
 
 Definition show_err (e : err) : string :=
-  match e with EMissing => "missing" | EPrimAttr => "prim" | ENoFile => "nofile" | ENoParams => "noparams" | ENoMM => "nomm" | EFuel => "FUEL" end.
+  match e with EMissing => "missing" | EPrimAttr => "prim" | ENoFile => "nofile" | ENoParams => "noparams" | ENoMM => "nomm" | ENotApplicable => "na" | EFuel => "FUEL" end.
 
 Definition show_outcome (r : gstate * outcome) : string :=
   let '(g, out) := r in
@@ -334,6 +364,9 @@ Definition show_outcome (r : gstate * outcome) : string :=
        | None => " repo-"
        | Some r => " repo[" ++ sjoin " " (map (fun e => show_nat (fst e) ++ ":" ++ show_model (g_heap g) (snd e)) r) ++ "]"
        end
+  | ORepo n0 r =>
+    "G new[" ++ sjoin " " (map (show_model (g_heap g)) (seq n0 (List.length (g_heap g) - n0))) ++ "]"
+    ++ " repo[" ++ sjoin " " (map (fun e => show_nat (fst e) ++ ":" ++ show_model (g_heap g) (snd e)) r) ++ "]"
   end.
 
 Definition show_run (w : list file) (c : cfg) (adds : list key) (ops : list op) : string :=
@@ -359,3 +392,15 @@ Definition k_debug : list N := [100;101;98;117;103]%N.
 Definition ex_op (kw : list (list N * N)) : op :=
   {| o_entry := EFile 0; o_content := {| f_imports := []; f_prim := false; f_lang := None |}; o_is_str := true; o_kw := kw |}.
 
+
+(* two registered languages: a.m (language 0) imports b.n1 (language 1) which imports c.u (no language:
+   loaded by the importing metamodel, i.e. 1) and d.m (language 0 again) *)
+Definition ex_world_langs : list file :=
+  [ {| f_imports := [ex_imp [1]]; f_prim := false; f_lang := Some 0 |};
+    {| f_imports := [ex_imp [2]; ex_imp [3]]; f_prim := false; f_lang := Some 1 |};
+    {| f_imports := []; f_prim := false; f_lang := None |};
+    {| f_imports := [ex_imp [0]]; f_prim := false; f_lang := Some 0 |} ].
+(* the same files as registered GlobalRepo patterns *)
+Definition ex_repo_op (kw : list (list N * N)) : op :=
+  {| o_entry := ERepo; o_content := {| f_imports := [ex_imp [1; 2]; ex_imp [0]]; f_prim := false; f_lang := None |};
+     o_is_str := true; o_kw := kw |}.
